@@ -643,3 +643,17 @@ def lexer_canonical(fn: ast.AST) -> ast.AST:
     over ``<rules>.finditer(...)`` is ``match``, ``match.lastgroup`` is ``kind``, ``match.group()``
     is ``value`` and ``match.group('name')`` is ``name``."""
     return rename_by_definition(fn, LEXER_NAMES[0], LEXER_NAMES[1])
+
+
+def rename_locals(fn: ast.AST, mapping: dict[str, str]) -> ast.AST:
+    """A deep copy of ``fn`` with the given locals renamed (old -> canonical).  Pairs whose
+    canonical name is already used for something else in the function are skipped."""
+    node = copy.deepcopy(fn)
+    used = {n.id for n in ast.walk(node) if isinstance(n, ast.Name)} | {a.arg for a in ast.walk(node) if isinstance(a, ast.arg)}
+    todo = {o: n for o, n in mapping.items() if o != n and n not in used and o in used}
+    if not todo:
+        return node
+    for n in ast.walk(node):
+        if isinstance(n, ast.Name) and n.id in todo:
+            n.id = todo[n.id]
+    return node
